@@ -91,6 +91,44 @@ class Path:
         self.out.put(p)
 
 
+class LinkPath:
+    """loss-free one-way path through a serial link: one packet at a time for `tx` seconds, then `prop` seconds of propagation.
+    The i-th packet put into it (transmission index i) with i in `extra` takes `extra[i]` seconds longer behind the link, so the
+    packets sent after it may overtake it (mild reordering: consecutive arrivals of the others are >= tx apart, so at most
+    floor(extra[i] / tx) packets overtake).  With an empty `extra` the path keeps order.  `on_put(p)` is called at the hand-over,
+    `on_deliver(i, p)` just before packet i is handed to `out`; `sent[i]` is the instant transmission i was put (harness clock)."""
+
+    def __init__(self, env, out, tx, prop, extra=None, on_put=None, on_deliver=None):
+        self.env, self.out, self.tx, self.prop = env, out, tx, prop
+        self.extra = {int(k): v for k, v in (extra or {}).items()}
+        self.on_put, self.on_deliver = on_put, on_deliver
+        self.n = 0
+        self.free = 0.0
+        self.sent = []
+        self.order = []              # transmission indices in the order of delivery
+        self.dropped = []            # (never drops: same public face as Path)
+        self.delivered = 0
+
+    def put(self, p):
+        i = self.n
+        self.n += 1
+        self.sent.append(self.env.now)
+        if self.on_put:
+            self.on_put(p)
+        depart = max(self.env.now, self.free) + self.tx
+        self.free = depart
+        at = depart + self.prop + self.extra.get(i, 0.0)
+        ev = self.env.timeout(at - self.env.now)
+        ev.callbacks.append(lambda e, p=p, i=i: self._deliver(i, p))
+
+    def _deliver(self, i, p):
+        self.delivered += 1
+        self.order.append(i)
+        if self.on_deliver:
+            self.on_deliver(i, p)
+        self.out.put(p)
+
+
 def _cycle(l):
     while True:
         for x in l:
